@@ -14,6 +14,7 @@ require (
 	github.com/orda-io/orda/server v0.0.0-00010101000000-000000000000
 	github.com/sirupsen/logrus v1.9.0
 	go.mongodb.org/mongo-driver v1.10.1
+	google.golang.org/grpc v1.49.0
 )
 
 require (
@@ -53,6 +54,5 @@ require (
 	golang.org/x/sys v0.0.0-20220825204002-c680a09ffe64 // indirect
 	golang.org/x/text v0.3.7 // indirect
 	google.golang.org/genproto v0.0.0-20220822174746-9e6da59bd2fc // indirect
-	google.golang.org/grpc v1.49.0 // indirect
 	google.golang.org/protobuf v1.28.1 // indirect
 )
